@@ -21,7 +21,7 @@ import json
 import os
 import random
 import time
-from concurrent.futures import ProcessPoolExecutor, wait
+from concurrent.futures import ProcessPoolExecutor, ThreadPoolExecutor, wait
 from pathlib import Path
 
 from .. import REPO
@@ -151,27 +151,41 @@ def run(ctx):
 
     # ------------------------------------------------------------------ 1. TLC: laws + enumeration
     d_paths, d_cases, d_units = (ctx.scratch / f"{m}.dump" for m in ("paths", "cases", "units"))
-    r = run_tlc("IfaceGen", _gen_cfg("paths", formats, 2, 1, False), scratch=ctx.scratch, timeout=900,
-                dump=d_paths if max_dirs == 2 else None)
-    ev.tlc("IfaceGen paths: FromPath laws on every abstract path with <= 3 segments", r)
-    if r.violated:
-        v.violation(what=f"IfaceGen: {r.violated} violated on the specification", observed=r.trace[:1])
-    if max_dirs != 2:
-        r = run_tlc("IfaceGen", _gen_cfg("paths", formats, max_dirs, 1, False), scratch=ctx.scratch, dump=d_paths)
-        ev.tlc("IfaceGen paths: replay universe (<= 2 segments)", r)
-    n_paths = r.distinct
-    r = run_tlc("IfaceGen", _gen_cfg("units", formats, 1, 1, False), scratch=ctx.scratch, dump=d_units)
-    ev.tlc("IfaceGen units: reference \\uN decoding is well-formed and inverts ToUnits, all runs <= 3", r)
-    if r.violated:
-        v.violation(what=f"IfaceGen: {r.violated} violated on the specification", observed=r.trace[:1])
-    r = run_tlc("IfaceGen", _gen_cfg("cases", formats, 1, max_val, False), scratch=ctx.scratch, dump=d_cases, timeout=900)
-    ev.tlc("IfaceGen cases: (path form x property value x format)", r)
-    for mode, dev, inv in (("paths", "SuffixFromFirstDot", "Inv_Suffix"), ("units", "Rtf!UnitsUnpaired", "Inv_DecodeWellFormed")):
-        rs = run_tlc("IfaceGen", _gen_cfg(mode, formats, 1, 1, False, dev=[dev], invs=[inv]), scratch=ctx.scratch,
-                     expect_fail=True)
+    sens = (("paths", "SuffixFromFirstDot", "Inv_Suffix"), ("units", "Rtf!UnitsUnpaired", "Inv_DecodeWellFormed"))
+    runs = {
+        "laws": lambda: run_tlc("IfaceGen", _gen_cfg("paths", formats, 2, 1, False), scratch=ctx.scratch, timeout=900,
+                                workers=4, dump=d_paths if max_dirs == 2 else None),
+        "replay": (lambda: run_tlc("IfaceGen", _gen_cfg("paths", formats, max_dirs, 1, False), scratch=ctx.scratch,
+                                   workers=2, dump=d_paths)) if max_dirs != 2 else None,
+        "units": lambda: run_tlc("IfaceGen", _gen_cfg("units", formats, 1, 1, False), scratch=ctx.scratch, workers=2,
+                                 dump=d_units),
+        "cases": lambda: run_tlc("IfaceGen", _gen_cfg("cases", formats, 1, max_val, False), scratch=ctx.scratch,
+                                 workers=4, dump=d_cases, timeout=900),
+    }
+    for mode, dev, inv in sens:
+        runs["sens:" + dev] = (lambda mode=mode, dev=dev, inv=inv: run_tlc(
+            "IfaceGen", _gen_cfg(mode, formats, 1, 1, False, dev=[dev], invs=[inv]), scratch=ctx.scratch, workers=2,
+            expect_fail=True))
+    runs = {k: f for k, f in runs.items() if f}
+    t0 = time.time()
+    with ThreadPoolExecutor(len(runs)) as tex:
+        futs = {k: tex.submit(f) for k, f in runs.items()}
+        tr = {k: f.result() for k, f in futs.items()}
+    ctx.log(f"TLC: {len(runs)} IfaceGen runs in {time.time() - t0:.1f}s")
+    ev.tlc("IfaceGen paths: FromPath laws on every abstract path with <= 3 segments", tr["laws"])
+    if "replay" in tr:
+        ev.tlc("IfaceGen paths: replay universe (<= 2 segments)", tr["replay"])
+    ev.tlc("IfaceGen units: reference \\uN decoding is well-formed and inverts ToUnits, all runs <= 3 units", tr["units"])
+    ev.tlc("IfaceGen cases: (path form x property value x format)", tr["cases"])
+    for k in ("laws", "units", "cases"):
+        if tr[k].violated:
+            v.violation(what=f"IfaceGen ({k}): {tr[k].violated} violated on the specification", observed=tr[k].trace[:1])
+    for mode, dev, inv in sens:
+        rs = tr["sens:" + dev]
         ev.tlc(f"IfaceGen sensitivity: deviation {dev} must violate {inv}", rs, note="expected violation")
         if rs.violated != inv:
             raise MachineryError(f"sensitivity run for {dev} did not fail ({rs.violated})")
+    n_paths = tr.get("replay", tr["laws"]).distinct
 
     paths = sorted((_plain(s["c"]["path"]) for s in _dump_states(d_paths)), key=lambda d: json.dumps(d, sort_keys=True))
     cases = sorted((_plain(s["c"]) for s in _dump_states(d_cases)), key=lambda d: json.dumps(d, sort_keys=True))
@@ -193,7 +207,10 @@ def run(ctx):
         jobs.append(job)
         meta[job["id"]] = m
 
-    for i, ap in enumerate(paths):
+    replay_paths = list(enumerate(paths))
+    if not ctx.thorough and len(replay_paths) > 600:      # quick: a seeded sample (the laws are decided on all of them)
+        replay_paths = sorted(random.Random(ctx.seed + 1).sample(replay_paths, 600))
+    for i, ap in replay_paths:
         f = formats[(i + ctx.seed) % len(formats)]
         sp = L.spell_path(ap, random.Random(f"{ctx.seed}:p:{i}"), own_ext=f)
         add({"id": f"path:{i}", "fmt": f, "data": base[f], "sp": sp}, kind="path", abstract=ap, fmt=f)
@@ -271,8 +288,9 @@ def run(ctx):
     traces = [t for t, _ in traces_nonempty]
     owner = [o for _, o in traces_nonempty]
     br = validate("IfaceTrace", "SPECIFICATION TraceSpec\nCONSTANTS Deviations = {}\nCONSTRAINT TraceAccept\n", traces,
-                  scratch=ctx.scratch, parallel=12, min_chunk=150, timeout=900, diagnose=40)
+                  scratch=ctx.scratch, parallel=12, min_chunk=150, timeout=900, diagnose=6)
     ev.tlc_counts("IfaceTrace: recorded accessor protocols validated", br.distinct, br.states, br.wall_s)
+    ctx.log(f"IfaceTrace validated {len(traces)} traces in {br.wall_s:.1f}s")
 
     # ------------------------------------------------------------------ 4. verdicts
     n_events = 0
